@@ -65,14 +65,13 @@ def write_program(d, name, src):
 
 BUILTIN_TAINTS = ("copy", "copybytes", "append")
 # taint steps whose silence does not depend on the sharing mechanism: keyed by the taint step first
-TAINT_FIRST = BUILTIN_TAINTS + ("idcall",)
+# (empty since fixes 913f0a4 / 1d98c84: builtin taint steps and idcall are reported now; a regression shows up under a mechanism key)
+TAINT_FIRST = ()
 
 
 def key_of(desc):
     """taint steps through builtin calls are silent whatever the sharing mechanism: keyed by the taint step first"""
     if desc[0] == "special":
-        if desc[1] == "id-return":
-            return "silent-flow:taint=idcall:special:%s" % desc[3]
         return "silent-flow:mech=special-%s:%s" % (desc[1], desc[3])
     if desc[1] in TAINT_FIRST:
         return "silent-flow:taint=%s:mech=%s:tgt=%s:%s" % (desc[1], desc[0], desc[2], desc[3])
